@@ -600,7 +600,9 @@ func (q *MustPass) calleeImplies(v ssa.Value, want Pred, depth int) bool {
 		if !inModuleFn(g) || g.Blocks == nil {
 			return false
 		}
-		if !q.implied(g, acc, depth+1) {
+		ok := false
+		bindCall(c, g, func() { ok = q.implied(g, acc, depth+1) })
+		if !ok {
 			return false
 		}
 	}
@@ -608,7 +610,7 @@ func (q *MustPass) calleeImplies(v ssa.Value, want Pred, depth int) bool {
 }
 
 func (q *MustPass) implied(g *ssa.Function, acc Accept, depth int) bool {
-	key := fmt.Sprintf("%s|%s%d", FuncKey(g), acc.Kind, acc.Result)
+	key := fmt.Sprintf("%s|%s%d%s", FuncKey(g), acc.Kind, acc.Result, bindingSig(g))
 	if r, ok := q.memo[key]; ok {
 		return r
 	}
@@ -652,7 +654,9 @@ func (q *MustPass) instrDischarges(fn *ssa.Function, i ssa.Instruction, depth in
 		if !inModuleFn(g) || g.Blocks == nil {
 			return false
 		}
-		if !q.implied(g, AcceptAny(), depth+1) {
+		ok := false
+		bindCall(c, g, func() { ok = q.implied(g, AcceptAny(), depth+1) })
+		if !ok {
 			return false
 		}
 	}
